@@ -17,7 +17,7 @@ def run(ctx):
     built, drv = prepare(
         ctx,
         MODULE,
-        "shared traced run (see C01) incl. product-side carbon surplus, two-sided imbalances with water insertion, MCS failures; "
+        "shared traced run (see C01) and the untraced runs under 5 configurations (see C01) incl. product-side carbon surplus, two-sided imbalances with water insertion, MCS failures; "
         "statement on the real rows: unsolved => reaction == input_reaction and non-empty issue; solved => one of the three "
         "methods and empty/absent issue; products with more carbon than reactants (RDKit count) => declined "
         "(non-trivial = unsolved row; distinct by input)",
@@ -31,6 +31,7 @@ def run(ctx):
             ctx.corr_break("Pipeline:run-raised", {"n": len(tr["inputs"])}, "model never raises", tr["error"])
         else:
             statement(ctx, tr)
+            pipeline.each_config(ctx, lambda name, c: statement(ctx, c))
             uns = [r for r in tr["out"] if not r.get("solved")]
             if uns:
                 ctx.sample({"declined": uns[0]["input_reaction"], "issue": uns[0].get("issue")})
